@@ -79,3 +79,19 @@ Section Contract.
     - apply firstn_NoDup_map.
   Qed.
 End Contract.
+
+(* the executable clauses hold of the model's output for every oracle *)
+Theorem model_inh_holds_b sc t o pop_size prev new :
+  inh_holds_b sc pop_size prev new (inherit sc t o pop_size prev new) = true.
+Proof.
+  destruct (inheritance_contract_g better dom sc t o pop_size prev new) as (out & E & I & L & H).
+  unfold inherit. rewrite E. unfold inh_holds_b. rewrite (subset_b_of_incl _ _ I).
+  apply Nat.leb_le in L. rewrite L. cbn [andb]. unfold implb.
+  assert (Steady : (2 <= n_distinct (prev ++ new) -> NoDup (map uid out) /\ length out = Nat.min pop_size (n_distinct (prev ++ new))) ->
+                   negb (2 <=? n_distinct (prev ++ new)) || nodup_uid out = true).
+  { intros H2. destruct (2 <=? n_distinct (prev ++ new)) eqn:D; [|reflexivity]. apply Nat.leb_le in D.
+    cbn [negb orb]. apply nodup_uid_iff, H2, D. }
+  destruct sc; try (apply Steady, H).
+  destruct H as [_ H]. destruct (nodup_uid new) eqn:Nn; [|reflexivity]. cbn [negb orb].
+  apply nodup_uid_iff, H, nodup_uid_iff, Nn.
+Qed.
